@@ -6,6 +6,6 @@ cd /repo && git diff --quiet || { echo "/repo not clean"; exit 9; }
 trap 'git -C /repo checkout -- . ' EXIT
 git -C /repo apply /verif/seeded/$id/patch.diff || exit 9
 for p in $props; do
-  out=$(cd /verif && timeout 1500 ./check $p quick 2>&1 | grep -v WARNING); rc=$?
-  echo "[$id] $p exit=$(cd /verif; echo $rc) :: $(echo "$out" | head -3 | cut -c1-260 | tr '\n' '|')"
+  out=$(cd /verif && timeout 1500 ./check $p quick 2>&1); rc=$?; out=$(echo "$out" | grep -v WARNING)
+  echo "[$id] $p exit=$rc :: $(echo "$out" | head -3 | cut -c1-260 | tr '\n' '|')"
 done
